@@ -5,7 +5,12 @@ operations over three classes (A <- B by foreign key; A--B many-to-many declared
 on both sides; A--P many-to-many declared on A only; P--P a mirrored pair of
 self-referential many-to-many joins), together with the orderBy of every join.
 After every operation every accessor of every live object is read on the real
-SQLObject (sqlite :memory:) and the raw tables are dumped."""
+SQLObject (sqlite :memory:) and the raw tables are dumped.
+
+Round 6: orderBy keys are written as names ('k0', '-k0') or as expressions (Cls.q.k0, DESC(Cls.q.k0)); a join may
+be declared without orderBy and every class may have a sqlmeta.defaultOrder (a name or a list); the ManyToMany /
+OneToMany descriptors (A.mbs, B.mas over the A--B table, P.mas over the A--P table, P.mfr over the P--P table,
+A.obs over B's foreign key) are read (iteration and .count()) and operated (add / remove / create)."""
 import json
 
 PROP = 'C13'
@@ -17,7 +22,8 @@ COQ_HEADER = '''From Coq Require Import List ZArith. Import ListNotations. Open 
 From Lib Require Import CorrLib. From Gen Require Import Joins. From Model Require Import Joins.
 From Corr Require Import C13.
 Notation Sm := Some. Notation Nn := None.
-Notation Ka c := {| k_col := c; k_desc := false |}. Notation Kd c := {| k_col := c; k_desc := true |}.
+Notation Ka c := {| k_col := c; k_desc := false; k_form := FName |}. Notation Kd c := {| k_col := c; k_desc := true; k_form := FName |}.
+Notation Qa c := {| k_col := c; k_desc := false; k_form := FExpr |}. Notation Qd c := {| k_col := c; k_desc := true; k_form := FExpr |}.
 Notation Bs s t l a := {| so_status := s; so_tabs := t; so_links := l; so_acc := a |}.'''
 COQ_CASE_TYPE = 'case'
 COQ_AGREE = 'agree'
@@ -28,23 +34,31 @@ RULE = ('seeded random histories of 5..40 operations (create with/without explic
         'foreign key as object / id / None, add and remove on each many-to-many from either side and through either flavour, '
         'destroy) over the classes A, B (fk to A), P with link tables A--B (two-sided), A--P (one-sided) and P--P (mirrored '
         'self-join); key columns take values in {None,0,1,2} (ties) or are distinct; orderBy of each of the six join pairs '
-        'drawn from None / name / -name / lists and tuples of 1..3 names with mixed directions, id included; plus a malformed '
+        'drawn from None / name / -name / lists and tuples of 1..3 keys with mixed directions, id included, each key written as a '
+        'name or (about a third of the joins; on the self-referential pair one history in eight) as an expression Cls.q.col / '
+        'DESC(Cls.q.col); 15% of the joins are declared without orderBy and 45% of the classes get a sqlmeta.defaultOrder '
+        '(name or list); add/remove also go through the ManyToMany wrappers (A.mbs, B.mas, P.mas, P.mfr), create() through a '
+        'ManyToMany or the OneToMany A.obs on the classes\' own connection; plus a malformed '
         'stream (orderBy=[], missing ids, taken explicit ids); in 2 of 5 histories about a third of the creates take the explicit '
         'primary keys 0, -1 or -2; each history runs in one of three connection modes: on the classes\' '
         'own connection, or (3 of 5 cases) with the classes bound to a decoy-filled database while every object is created/fetched '
-        'with an explicit connection= to a second database, directly or through a Transaction of it.  After every step all 13 accessors of every live object are read '
-        'and all six tables dumped.  Non-trivial = some accessor returned two or more objects and some list join had a tie or a '
+        'with an explicit connection= to a second database, directly or through a Transaction of it.  After every step all 18 accessors of every live object are read '
+        '(the six list joins twice in a row; the ManyToMany/OneToMany selects iterated and counted) and all six tables dumped.  Non-trivial = some accessor returned two or more objects and some list join had a tie or a '
         'None among its keys, or an op was refused; distinct = distinct (orders, op list).')
 EXPLANATION = ('Theorems C13_* (Coq: all histories by induction over the op list, all table contents, all orderBy key lists) over '
                'a relational model whose doSort statement order, related-join column roles and destroySelf clean-up columns are '
                'REGENERATED from joins.py/dbconnection.py/main.py on this run; correspondence: the model stepped through each '
                'history inside Coq (vm_compute) against the real SQLObject on sqlite -- op outcome, raw tables, every accessor '
-               '(exact order for list joins, sorted-permutation for query joins); the oracle judges every accessor directly from '
-               'the raw tables.')
+               '(exact order for list joins, sorted-permutation for query joins and for the ManyToMany/OneToMany selects under the '
+               'other class\'s defaultOrder, .count() = number of candidates, SingleJoin = a first row under B\'s defaultOrder); the '
+               'oracle judges every accessor directly from the raw tables, compares two successive reads of every list join and '
+               'checks that the orderBy lists handed to the joins are left as they were.')
 TRUSTED_BASE = [
     'Coq 8.16.1 kernel + vm_compute (examples, correspondence); no native_compute',
     'tools/py2coq/gen_joins.py (dedicated ast matcher: doSort statement order, SORelatedJoin/SOSQLRelatedJoin column roles, '
-    '_SO_intermediate* templates, destroySelf clean-up loops); it fails closed on any other shape',
+    '_SO_intermediate* templates, destroySelf clean-up loops, SOManyToMany.__get__ and _ManyToManySelectWrapper.add/remove '
+    'column roles; wrapper create/__iter__/__getattr__ and the OneToMany descriptor must be the known text); it fails closed '
+    'on any other shape',
     'Model/Joins.v is hand-written: list.sort is a stable sort and reverse=True keeps stability (Python); MinType sorts below ints; '
     'sqlite: a SELECT without ORDER BY scans in rowid order, AUTOINCREMENT ids are max-ever+1, NULL sorts lowest, '
     'ORDER BY is lexicographic with ties in unspecified order, foreign keys are not enforced '
@@ -52,58 +66,104 @@ TRUSTED_BASE = [
     'objects are identified with their rows: the list joins read sort keys from cached attribute values, assumed equal to the '
     'stored values (single connection, cache on: property C05)',
     'fixture: three classes, default cascade=None on the foreign key, explicit intermediateTable/joinColumn/otherColumn names; '
-    'SingleJoin without makeDefault; ManyToMany/OneToMany (the experimental API) not covered',
+    'SingleJoin without makeDefault; ManyToMany descriptors only over tables that a RelatedJoin declares too (a table only '
+    'ManyToMany declares is not cleaned by destroySelf: finding destroy_leaves_manytomany_links, stand-alone witness); '
+    'defaultOrder written with names (expression keys only in join orderBy)',
+    'ManyToMany/OneToMany selects have no connection of their own (finding manytomany_ignores_instance_connection): away from '
+    'the classes\' connection the harness reads them through .connection(work connection) and does not generate create() '
+    '(neither the ManyToMany\'s nor the OneToMany\'s)',
+    'orderBy key forms: the DESC/SQLObjectField branch of doSort is text-matched by the generator and executed by the '
+    'correspondence; the model identifies Cls.q.col with the name col (k_form is ignored by the list-join model, '
+    'theorem C13_key_forms) except in sql_related of a self-referential join (database error, open finding)',
     'add/remove/fk-by-object operands are objects obtained with cls.get(id) (a missing row aborts the op); add(<int>) of a missing id is out of scope',
     'connections are not modelled: the same model is compared with histories run on the classes\' own connection, on an explicit '
     'second connection (classes bound to a decoy-filled database) and inside an uncommitted Transaction of it',
     'the correspondence harness tools/props/c13.py and the cases.v evaluation',
 ]
 
-ACC = ['bs', 'bsq', 'one', 'rbs', 'rbsq', 'ps', 'psq', 'ras', 'rasq', 'fr', 'frq', 'of', 'ofq']
+ACC = ['bs', 'bsq', 'one', 'rbs', 'rbsq', 'ps', 'psq', 'ras', 'rasq', 'fr', 'frq', 'of', 'ofq',
+       'mbs', 'obs', 'mas', 'mas', 'mfr']      # 13.. : ManyToMany / OneToMany descriptors (A.mbs, A.obs, B.mas, P.mas, P.mfr)
+SEL_ACC = (13, 14, 15, 16, 17)
+READ_ORDER = ([0, 1, 2, 3, 4, 5, 6, 13, 14], [7, 8, 15], [9, 10, 11, 12, 16, 17])   # per owner class, as Corr reads_of
+NACC = 18
+DEFAULT = '@default'                            # a join declared without orderBy
 LIST_ACC = (0, 3, 5, 7, 9, 11)
 SQL_ACC = (1, 4, 6, 8, 10, 12)
 SQLREL_ACC = (4, 6, 8, 10, 12)
 ACC_ORD = {0: 0, 1: 0, 3: 1, 4: 1, 5: 2, 6: 2, 7: 3, 8: 3, 9: 4, 10: 4, 11: 5, 12: 5}
-ACC_OWNER = [0] * 7 + [1] * 2 + [2] * 4                       # class index of the accessor's owner
-ACC_TARGET = {0: 1, 1: 1, 2: 1, 3: 1, 4: 1, 5: 2, 6: 2, 7: 0, 8: 0, 9: 2, 10: 2, 11: 2, 12: 2}
+ACC_OWNER = [0] * 7 + [1] * 2 + [2] * 4 + [0, 0, 1, 2, 2]         # class index of the accessor's owner
+ACC_TARGET = {0: 1, 1: 1, 2: 1, 3: 1, 4: 1, 5: 2, 6: 2, 7: 0, 8: 0, 9: 2, 10: 2, 11: 2, 12: 2,
+              13: 1, 14: 1, 15: 0, 16: 0, 17: 2}
 # related accessors: (link table index, column holding the owner, column holding the partner)
 ACC_LINK = {3: (0, 0, 1), 4: (0, 0, 1), 5: (1, 0, 1), 6: (1, 0, 1), 7: (0, 1, 0), 8: (0, 1, 0),
-            9: (2, 0, 1), 10: (2, 0, 1), 11: (2, 1, 0), 12: (2, 1, 0)}
+            9: (2, 0, 1), 10: (2, 0, 1), 11: (2, 1, 0), 12: (2, 1, 0),
+            13: (0, 0, 1), 15: (0, 1, 0), 16: (1, 1, 0), 17: (2, 0, 1)}
 CLS = ['A', 'B', 'P']
 JOINS = {  # name -> (link table, side, owner class, other class, [adder names list-flavour, query-flavour])
     'rbs': (0, 0, 0, 1, ['Rb', 'Rbq']), 'ps': (1, 0, 0, 2, ['Ps', 'Psq']), 'ras': (0, 1, 1, 0, ['Ra', 'Raq']),
     'fr': (2, 0, 2, 2, ['Fr', 'Frq']), 'of': (2, 1, 2, 2, ['Of', 'Ofq']),
+    'pas': (1, 1, 2, 0, []),        # P's side of the A--P table: declared by the ManyToMany P.mas only
 }
+M2M_ATTR = {'rbs': 'mbs', 'ras': 'mas', 'pas': 'mas', 'fr': 'mfr'}     # via=2: through the ManyToMany descriptor
 COLS = ['id', 'k0', 'k1', 'k2']
 # where a history runs (see build_fixture): 3 of 5 cases away from the classes' default connection
 CONN_MODES = ['default', 'other', 'txn', 'other', 'default']
 
 
 # ---------------------------------------------------------------- generation
-def rand_key(rng, with_id):
+def rand_key(rng, with_id, expr=0.0):
+    """a key: 'k0' / '-k0' (names), 'q:k0' (Cls.q.k0), 'qd:k0' (DESC(Cls.q.k0))"""
     cols = COLS if with_id else COLS[1:]
     c = rng.choice(cols) if rng.random() > 0.5 else rng.choice(['k0', 'k1'])
-    return ('-' if rng.random() < 0.4 else '') + c
+    desc = rng.random() < 0.4
+    if rng.random() < expr:
+        return ('qd:' if desc else 'q:') + c
+    return ('-' if desc else '') + c
 
 
-def rand_order(rng, with_id=True):
-    """JSON form of an orderBy: None | 'name' | ['list', names...] | ['tuple', names...]"""
+def key_name(k):
+    """the key as a name: 'k0' / '-k0'"""
+    if k.startswith('qd:'):
+        return '-' + k[3:]
+    if k.startswith('q:'):
+        return k[2:]
+    return k
+
+
+def is_expr(k):
+    return k.startswith('q:') or k.startswith('qd:')
+
+
+def rand_order(rng, with_id=True, expr=0.0):
+    """JSON form of an orderBy: None | key | ['list', keys...] | ['tuple', keys...]"""
     r = rng.random()
     if r < 0.12:
         return None
     if r < 0.30:
-        return rand_key(rng, with_id)
+        return rand_key(rng, with_id, expr)
     n = 1 if r < 0.36 else (2 if r < 0.78 else 3)
     keys = []
     while len(keys) < n:
-        k = rand_key(rng, with_id)
-        if k.lstrip('-') not in [x.lstrip('-') for x in keys]:
+        k = rand_key(rng, with_id, expr)
+        if key_name(k).lstrip('-') not in [key_name(x).lstrip('-') for x in keys]:
             keys.append(k)
     return [rng.choice(['list', 'tuple'])] + keys
 
 
-def rand_history(rng, nops, malformed=False, with_id=True, maxobj=5):
-    orders = [rand_order(rng, with_id) for _ in range(6)]
+def rand_history(rng, nops, malformed=False, with_id=True, maxobj=5, mode='default'):
+    # expression keys on about a third of the joins; on the self-referential pair (where the query flavour
+    # cannot resolve them: finding sqlrelatedjoin_self_expr_orderby) only in one history of eight
+    selfexpr = rng.random() < 0.125
+    orders = []
+    for n in range(6):
+        if rng.random() < 0.15:
+            orders.append(DEFAULT)
+        else:
+            e = 0.35 if rng.random() < 0.4 else 0.0
+            if n >= 4 and not selfexpr:
+                e = 0.0
+            orders.append(rand_order(rng, with_id, e))
+    deford = [rand_order(rng, with_id) if rng.random() < 0.45 else None for _ in range(3)]
     if malformed and rng.random() < 0.5:
         orders[rng.randrange(6)] = ['list']
     distinct = rng.random() < 0.25          # distinct key values: the ordering is total
@@ -171,17 +231,43 @@ def rand_history(rng, nops, malformed=False, with_id=True, maxobj=5):
             ops.append({'op': 'setkey', 'c': c, 'id': pick(c), 'col': rng.randrange(3), 'v': kv()})
         elif r < 0.44:
             ops.append({'op': 'setfk', 'id': pick(1), 'fk': fkval()})
-        elif r < 0.72:
-            name = rng.choice(['rbs', 'ras', 'ps', 'fr', 'fr', 'of', 'of'])
+        elif r < 0.68:
+            name = rng.choice(['rbs', 'ras', 'ps', 'pas', 'fr', 'fr', 'of', 'of'])
             j = JOINS[name]
             x, y = pick(j[2]), pick(j[3])
-            ops.append({'op': 'add', 'j': name, 'via': rng.randrange(2), 'x': x, 'y': y})
+
+            def via():
+                if name == 'pas':
+                    return 2
+                return rng.randrange(3) if name in M2M_ATTR else rng.randrange(2)
+            ops.append({'op': 'add', 'j': name, 'via': via(), 'x': x, 'y': y})
             if rng.random() < 0.15:                      # a duplicate link, perhaps from the other side
-                ops.append({'op': 'add', 'j': name, 'via': rng.randrange(2), 'x': x, 'y': y})
+                ops.append({'op': 'add', 'j': name, 'via': via(), 'x': x, 'y': y})
+        elif r < 0.72 and mode == 'default':
+            # the descriptors' create(): a new partner / a new referencing row (on the classes' own connection only)
+            if rng.random() < 0.3:
+                if len(live[1]) >= maxobj:
+                    continue
+                x = pick(0)
+                ops.append({'op': 'ocreate', 'x': x, 'k': [kv(), kv(), kv()]})
+                if x in live[0]:
+                    seq[1] += 1
+                    live[1].append(seq[1])
+            else:
+                name = rng.choice(['rbs', 'ras', 'pas', 'fr'])
+                j = JOINS[name]
+                if len(live[j[3]]) >= maxobj:
+                    continue
+                x = pick(j[2])
+                ops.append({'op': 'mcreate', 'j': name, 'x': x, 'k': [kv(), kv(), kv()]})
+                if x in live[j[2]]:
+                    seq[j[3]] += 1
+                    live[j[3]].append(seq[j[3]])
         elif r < 0.84:
-            name = rng.choice(['rbs', 'ras', 'ps', 'fr', 'of'])
+            name = rng.choice(['rbs', 'ras', 'ps', 'pas', 'fr', 'of'])
             j = JOINS[name]
-            ops.append({'op': 'remove', 'j': name, 'via': rng.randrange(2), 'x': pick(j[2]), 'y': pick(j[3])})
+            v = 2 if name == 'pas' else (rng.randrange(3) if name in M2M_ATTR else rng.randrange(2))
+            ops.append({'op': 'remove', 'j': name, 'via': v, 'x': pick(j[2]), 'y': pick(j[3])})
         else:
             c = rng.randrange(3)
             i = pick(c)
@@ -189,7 +275,7 @@ def rand_history(rng, nops, malformed=False, with_id=True, maxobj=5):
             if i in live[c]:
                 live[c].remove(i)
                 dead[c].append(i)
-    return {'orders': orders, 'ops': ops[:nops]}
+    return {'orders': orders, 'deford': deford, 'ops': ops[:nops]}
 
 
 def corpus():
@@ -244,6 +330,56 @@ def corpus():
         out.append(dict(mk(none6, single), conn=mode))
         out.append(dict(base[0], conn=mode))
         out.append(dict(base[3], conn=mode))
+    # ---- round 6: key forms, defaultOrder lists, ManyToMany / OneToMany
+    add = lambda j, via, x, y: {'op': 'add', 'j': j, 'via': via, 'x': x, 'y': y}
+    rem = lambda j, via, x, y: {'op': 'remove', 'j': j, 'via': via, 'x': x, 'y': y}
+    # open finding sqlrelatedjoin_self_expr_orderby: an expression key on the self-referential query join
+    out.append({'orders': [None, None, None, None, 'qd:k0', ['list', 'q:k1', '-id']], 'deford': [None] * 3,
+                'ops': [cr(2, [1, 0, None]), cr(2, [1, 1, None]), cr(2, [None, 1, None]), add('fr', 0, 1, 2),
+                        add('fr', 1, 1, 3), add('of', 0, 1, 1), add('fr', 2, 1, 1)]})
+    # fixed finding onetomany_create_column_name_keyword (80b2179): regression case
+    out.append({'orders': none6, 'deford': [None, ['list', '-k0', 'k1'], None],
+                'ops': [cr(0, [0, 0, 0]), {'op': 'ocreate', 'x': 1, 'k': [1, 2, None]}, cr(1, [1, 2, None], ['obj', 1]),
+                        {'op': 'ocreate', 'x': 5, 'k': [None, None, None]}]})
+    # expression keys (DESC(Cls.q.k), Cls.q.k) next to names, ties and NULLs, on every non-self join; a tuple; a single DESC
+    out.append({'orders': [['list', 'qd:k0', 'k1'], ['tuple', 'q:k0', 'qd:k1', '-id'], 'qd:k1', ['list', '-k0', 'q:id'],
+                           ['list', '-k0', 'k1'], '-k1'], 'deford': [None] * 3,
+                'ops': [cr(0, [1, None, None]), cr(1, [2, 1, None], ['obj', 1]), cr(1, [2, 3, None], ['id', 1]),
+                        cr(1, [None, 5, None], ['obj', 1]), cr(1, [2, None, None], ['obj', 1]), cr(1, [1, 3, None], ['obj', 1]),
+                        cr(0, [1, 2, None]), cr(0, [0, 2, None]), cr(2, [0, 1, None]), cr(2, [0, None, None]),
+                        add('rbs', 0, 1, 3), add('ras', 1, 1, 1), add('rbs', 1, 1, 5), add('rbs', 0, 1, 2), add('rbs', 2, 1, 4),
+                        add('ras', 0, 2, 2), add('ras', 2, 2, 3), add('ps', 0, 1, 2), add('ps', 1, 1, 1),
+                        add('fr', 0, 1, 2), add('fr', 0, 1, 1)]})
+    # defaultOrder lists on every class, joins declared without orderBy, SingleJoin picks by B's defaultOrder,
+    # ManyToMany add/remove/create from both sides, duplicates, destroy, OneToMany
+    out.append({'orders': [DEFAULT, DEFAULT, DEFAULT, DEFAULT, DEFAULT, 'k0'],
+                'deford': [['list', '-k0', 'k1'], ['tuple', 'k1', '-k0'], '-k2'],
+                'ops': [cr(0, [1, 1, 1]), cr(0, [1, 0, 1]), cr(1, [0, 1, 1], ['obj', 1]), cr(1, [2, 1, 1], ['id', 1]),
+                        cr(1, [None, 0, 1], ['obj', 1]), cr(2, [0, 0, 2]), cr(2, [0, 0, None]),
+                        add('rbs', 2, 1, 1), add('ras', 2, 2, 1), add('rbs', 2, 1, 1), add('ras', 2, 1, 2),
+                        {'op': 'mcreate', 'j': 'rbs', 'x': 1, 'k': [2, 1, None]},
+                        {'op': 'mcreate', 'j': 'ras', 'x': 4, 'k': [1, None, None]},
+                        add('pas', 2, 1, 1), add('ps', 0, 2, 1), add('pas', 2, 2, 3),
+                        {'op': 'mcreate', 'j': 'pas', 'x': 2, 'k': [5, 5, 5]},
+                        {'op': 'mcreate', 'j': 'fr', 'x': 1, 'k': [None, 1, 0]}, add('fr', 2, 1, 1),
+                        rem('rbs', 2, 1, 1), rem('pas', 2, 1, 1), rem('ras', 2, 2, 1),
+                        {'op': 'mcreate', 'j': 'rbs', 'x': 9, 'k': [0, 0, 0]},
+                        {'op': 'destroy', 'c': 1, 'id': 4}, {'op': 'destroy', 'c': 0, 'id': 4},
+                        {'op': 'destroy', 'c': 2, 'id': 1}]})
+    # seeded c13_dosort_reverses_order_list_in_place: a list ordering read twice
+    out.append({'orders': [['list', '-k2', 'k0'], ['list', 'k1', '-k0'], None, None, None, None], 'deford': [None] * 3,
+                'ops': [cr(0, [0, 0, 0]), cr(1, [1, 0, 0], ['obj', 1], 0), cr(1, [0, None, 0], ['obj', 1]),
+                        cr(1, [0, 1, 1], ['obj', 1]), add('rbs', 0, 1, 0), add('rbs', 0, 1, 1), add('rbs', 2, 1, 2)]})
+    exprcase = out[-3]
+    for mode in ('other', 'txn'):
+        out.append(dict(exprcase, conn=mode))
+    # ManyToMany add/remove through an explicit connection (no create(): it goes to the classes' connection)
+    m2m = [cr(0, [1, 1, 1]), cr(1, [0, 1, 1], ['obj', 1]), cr(1, [2, 1, 1], ['id', 1]), cr(2, [0, 0, 2]),
+           add('rbs', 2, 1, 1), add('ras', 2, 2, 1), add('rbs', 2, 1, 1), add('pas', 2, 1, 1), add('fr', 2, 1, 1),
+           rem('ras', 2, 1, 1), {'op': 'destroy', 'c': 1, 'id': 2}]
+    for mode in ('other', 'txn'):
+        out.append({'orders': [DEFAULT] * 6, 'deford': [['list', '-k0', 'k1'], ['tuple', 'k1', '-k0'], '-k2'],
+                    'ops': m2m, 'conn': mode})
     return out
 
 
@@ -251,8 +387,9 @@ def generate(rng, tier):
     out = []
     n = 640 if tier == 'quick' else 6000
     for k in range(n):
-        c = rand_history(rng, rng.randint(5, 40), malformed=(k % 8 == 7), with_id=(k % 3 != 0))
-        c['conn'] = CONN_MODES[(k // 3) % 5]        # independent of the k % 3 / k % 8 cycles
+        mode = CONN_MODES[(k // 3) % 5]             # independent of the k % 3 / k % 8 cycles
+        c = rand_history(rng, rng.randint(5, 40), malformed=(k % 8 == 7), with_id=(k % 3 != 0), mode=mode)
+        c['conn'] = mode
         out.append(c)
     return out
 
@@ -260,20 +397,38 @@ def generate(rng, tier):
 def search_cases(rng, tier):
     out = []
     for k in range(1500 if tier == 'quick' else 6000):
-        c = rand_history(rng, rng.randint(5, 40), malformed=(k % 8 == 7), with_id=(k % 3 != 0), maxobj=6)
-        c['conn'] = CONN_MODES[(k // 3) % 5]
+        mode = CONN_MODES[(k // 3) % 5]
+        c = rand_history(rng, rng.randint(5, 40), malformed=(k % 8 == 7), with_id=(k % 3 != 0), maxobj=6, mode=mode)
+        c['conn'] = mode
         out.append(c)
     return out
 
 
 # ---------------------------------------------------------------- implementation side
-def py_order(o):
-    if o is None or isinstance(o, str):
-        return o
-    return list(o[1:]) if o[0] == 'list' else tuple(o[1:])
+def py_key(k, cls):
+    """the Python value of a key; cls = the class the join returns (needed for the expression forms)"""
+    if is_expr(k):
+        from sqlobject.sqlbuilder import DESC
+        f = getattr(cls.q, key_name(k).lstrip('-'))
+        return DESC(f) if k.startswith('qd:') else f
+    return k
+
+
+def py_order(o, cls=None):
+    if o is None:
+        return None
+    if isinstance(o, str):
+        return py_key(o, cls)
+    keys = [py_key(k, cls) for k in o[1:]]
+    return keys if o[0] == 'list' else tuple(keys)
+
+
+def order_has_expr(o):
+    return o is not None and o != DEFAULT and any(is_expr(k) for k in ([o] if isinstance(o, str) else o[1:]))
 
 
 _counter = [0]
+_given = {}      # id(VA) -> (orderBy objects handed to the joins, identity snapshot of the list ones)
 
 
 DECOY = [
@@ -302,59 +457,96 @@ class Ctx(object):
         return cls(**kw)
 
 
-def build_fixture(orders, mode='default'):
+def build_fixture(orders, mode='default', deford=None):
     """Three fresh classes in a private registry on a private in-memory database.
     mode 'default': the classes' own connection does the work.
     mode 'other':   the classes are bound to a database filled with decoy rows; the history runs on a second
                     database through an explicit connection=conn2.
-    mode 'txn':     as 'other', through a Transaction of conn2 (nothing is committed)."""
+    mode 'txn':     as 'other', through a Transaction of conn2 (nothing is committed).
+    A join whose orderBy is DEFAULT is declared without orderBy (it takes the other class's
+    sqlmeta.defaultOrder); joins whose orderBy holds expression keys (Cls.q.col) are installed with
+    sqlmeta.addJoin once the classes exist, all others in the class body."""
     from sqlobject import SQLObject, IntCol, ForeignKey, MultipleJoin, SQLMultipleJoin, RelatedJoin, \
         SQLRelatedJoin, SingleJoin
+    from sqlobject.joins import ManyToMany, OneToMany
     from sqlobject.sqlite.sqliteconnection import SQLiteConnection
     _counter[0] += 1
     reg = 'verif_c13_%d' % _counter[0]
     conn = SQLiteConnection(':memory:')
-    o = [py_order(x) for x in orders]
+    deford = deford or [None, None, None]
+    NAMES = ['VA', 'VB', 'VP']
+    # (owner, attribute, constructor, other class, order index, keywords)
+    specs = [(0, 'bs', MultipleJoin, 1, 0, dict(joinColumn='a_id')),
+             (0, 'bsq', SQLMultipleJoin, 1, 0, dict(joinColumn='a_id'))]
 
-    def rel(cls, other, order, name, table, jc, oc, create):
-        kw = dict(orderBy=order, intermediateTable=table, joinColumn=jc, otherColumn=oc)
-        return (RelatedJoin(other, addRemoveName=name, createRelatedTable=create, **kw),
-                SQLRelatedJoin(other, addRemoveName=name + 'q', createRelatedTable=False, **kw))
+    def rel(owner, other, n, attr, name, table, jc, oc, create):
+        kw = dict(intermediateTable=table, joinColumn=jc, otherColumn=oc)
+        specs.append((owner, attr, RelatedJoin, other, n, dict(kw, addRemoveName=name, createRelatedTable=create)))
+        specs.append((owner, attr + 'q', SQLRelatedJoin, other, n,
+                      dict(kw, addRemoveName=name + 'q', createRelatedTable=False)))
+    rel(0, 1, 1, 'rbs', 'Rb', 'lab', 'a_id', 'b_id', True)
+    rel(0, 2, 2, 'ps', 'Ps', 'lap', 'a_id', 'p_id', True)
+    rel(1, 0, 3, 'ras', 'Ra', 'lab', 'b_id', 'a_id', False)
+    rel(2, 2, 4, 'fr', 'Fr', 'lpp', 'from_id', 'to_id', True)
+    rel(2, 2, 5, 'of', 'Of', 'lpp', 'to_id', 'from_id', False)
+    body = [{}, {}, {}]
+    late = []
+    given = {}       # attribute -> the orderBy object handed to the join (to see that reads leave it alone)
+    for owner, attr, ctor, other, n, kw in specs:
+        o = orders[n]
+        if order_has_expr(o):
+            late.append((owner, attr, ctor, other, n, kw))
+            continue
+        if o != DEFAULT:
+            kw = dict(kw, orderBy=py_order(o))
+            given[(owner, attr)] = kw['orderBy']
+        body[owner][attr] = ctor(NAMES[other], **kw)
 
-    class VA(SQLObject):
+    def meta(ci):
         class sqlmeta:
             registry = reg
+            defaultOrder = py_order(deford[ci])
+        return sqlmeta
+
+    class VA(SQLObject):
+        sqlmeta = meta(0)
         _connection = conn
         k0 = IntCol(default=None)
         k1 = IntCol(default=None)
         k2 = IntCol(default=None)
-        bs = MultipleJoin('VB', joinColumn='a_id', orderBy=o[0])
-        bsq = SQLMultipleJoin('VB', joinColumn='a_id', orderBy=o[0])
         one = SingleJoin('VB', joinColumn='a_id')
-        rbs, rbsq = rel('VA', 'VB', o[1], 'Rb', 'lab', 'a_id', 'b_id', True)
-        ps, psq = rel('VA', 'VP', o[2], 'Ps', 'lap', 'a_id', 'p_id', True)
+        locals().update(body[0])
+        mbs = ManyToMany('VB', intermediateTable='lab', joinColumn='a_id', otherColumn='b_id', createJoinTable=False)
+        obs = OneToMany('VB', joinColumn='a_id')
 
     class VB(SQLObject):
-        class sqlmeta:
-            registry = reg
+        sqlmeta = meta(1)
         _connection = conn
         k0 = IntCol(default=None)
         k1 = IntCol(default=None)
         k2 = IntCol(default=None)
         a = ForeignKey('VA', default=None, dbName='a_id')
-        ras, rasq = rel('VB', 'VA', o[3], 'Ra', 'lab', 'b_id', 'a_id', False)
+        locals().update(body[1])
+        mas = ManyToMany('VA', intermediateTable='lab', joinColumn='b_id', otherColumn='a_id', createJoinTable=False)
 
     class VP(SQLObject):
-        class sqlmeta:
-            registry = reg
+        sqlmeta = meta(2)
         _connection = conn
         k0 = IntCol(default=None)
         k1 = IntCol(default=None)
         k2 = IntCol(default=None)
-        fr, frq = rel('VP', 'VP', o[4], 'Fr', 'lpp', 'from_id', 'to_id', True)
-        of, ofq = rel('VP', 'VP', o[5], 'Of', 'lpp', 'to_id', 'from_id', False)
+        locals().update(body[2])
+        mas = ManyToMany('VA', intermediateTable='lap', joinColumn='p_id', otherColumn='a_id', createJoinTable=False)
+        mfr = ManyToMany('VP', intermediateTable='lpp', joinColumn='from_id', otherColumn='to_id',
+                         createJoinTable=False)
 
     K = [VA, VB, VP]
+    for owner, attr, ctor, other, n, kw in late:
+        ob = py_order(orders[n], K[other])
+        given[(owner, attr)] = ob
+        K[owner].sqlmeta.addJoin(ctor(NAMES[other], joinMethodName=attr, orderBy=ob, **kw))
+    _given[id(K[0])] = (given, {k: ([id(e) for e in v] if isinstance(v, list) else None) for k, v in given.items()})
+
     for c in K:
         c.createTable()
     if mode == 'default':
@@ -414,7 +606,16 @@ def do_op(X, op):
         j = JOINS[op['j']]
         x = X.get(K[j[2]], op['x'])
         y = X.get(K[j[3]], op['y'])
-        getattr(x, kind + j[4][op['via']])(y)
+        if op['via'] == 2:
+            getattr(getattr(x, M2M_ATTR[op['j']]), kind)(y)        # ManyToMany wrapper .add / .remove
+        else:
+            getattr(x, kind + j[4][op['via']])(y)
+    elif kind == 'mcreate':
+        j = JOINS[op['j']]
+        x = X.get(K[j[2]], op['x'])
+        getattr(x, M2M_ATTR[op['j']]).create(**dict(zip(('k0', 'k1', 'k2'), op['k'])))
+    elif kind == 'ocreate':
+        X.get(VA, op['x']).obs.create(**dict(zip(('k0', 'k1', 'k2'), op['k'])))
     elif kind == 'destroy':
         X.get(K[op['c']], op['id']).destroySelf()
     else:
@@ -437,7 +638,8 @@ def observe(X):
     ]
     acc = []
     keys = {}       # attribute values of the objects as Python sees them: (class, id) -> [id, k0, k1, k2]
-    for ci, (cls, rng_) in enumerate(((VA, range(0, 7)), (VB, range(7, 9)), (VP, range(9, 13)))):
+    reread = []     # list accessors whose second read differs from the first
+    for ci, (cls, rng_) in enumerate(zip((VA, VB, VP), READ_ORDER)):
         for row in tabs[ci]:
             obj = X.get(cls, row[0])
             keys['%d:%d' % (ci, row[0])] = [obj.id, obj.k0, obj.k1, obj.k2]
@@ -447,9 +649,19 @@ def observe(X):
                     if n == 2:
                         res = ['none'] if v is None else ['one', v.id]
                         got = [] if v is None else [v]
+                    elif n in SEL_ACC:
+                        # the select wrapper has no connection of its own: away from the classes' connection
+                        # it is pointed at the one the history runs on
+                        sel = v.connection(conn) if X.explicit else v
+                        got = list(sel)
+                        res = ['sel', [x.id for x in got], sel.count()]
                     else:
                         got = list(v)
                         res = ['ids', [x.id for x in got]]
+                        if n in LIST_ACC:
+                            again = [x.id for x in getattr(obj, ACC[n])]
+                            if again != res[1]:
+                                reread.append([n, row[0], res[1], again])
                     if X.explicit and any(x._connection is not conn for x in got):
                         wrong.append([n, row[0]])
                 except RecursionError as e:
@@ -457,11 +669,14 @@ def observe(X):
                 except Exception as e:
                     res = ['err', err_code(e), type(e).__name__]
                 acc.append([n, row[0], res])
-    return {'tabs': tabs, 'links': links, 'acc': acc, 'attrs': keys, 'wrongconn': wrong}
+    given, snap = _given[id(VA)]
+    mutated = [list(k) for k, v in given.items() if snap[k] is not None and [id(e) for e in v] != snap[k]]
+    return {'tabs': tabs, 'links': links, 'acc': acc, 'attrs': keys, 'wrongconn': wrong, 'reread': reread,
+            'mutated': mutated}
 
 
 def run_case(case):
-    X = build_fixture(case['orders'], case.get('conn', 'default'))
+    X = build_fixture(case['orders'], case.get('conn', 'default'), case.get('deford'))
     steps = []
     try:
         for op in case['ops']:
@@ -470,7 +685,7 @@ def run_case(case):
                 do_op(X, op)
             except Exception as e:
                 n = type(e).__name__
-                st = 1 if n == 'SQLObjectNotFound' else (2 if n == 'DuplicateEntryError' else 9)
+                st = {'SQLObjectNotFound': 1, 'DuplicateEntryError': 2, 'TypeError': 4}.get(n, 9)
                 exn = n
             o = observe(X)
             o['status'] = st
@@ -508,10 +723,11 @@ def oz(v):
 
 
 def coq_key(k):
-    desc = k.startswith('-')
-    name = k[1:] if desc else k
+    nm = key_name(k)
+    desc = nm.startswith('-')
+    name = nm[1:] if desc else nm
     col = 'CId' if name == 'id' else '(CK K%s)' % name[1]
-    return '(%s %s)' % ('Kd' if desc else 'Ka', col)
+    return '(%s %s)' % (('Qd' if desc else 'Qa') if is_expr(k) else ('Kd' if desc else 'Ka'), col)
 
 
 def coq_order(o):
@@ -520,6 +736,10 @@ def coq_order(o):
     if isinstance(o, str):
         return '(OOne %s)' % coq_key(o)
     return '(OList [%s])' % '; '.join(coq_key(k) for k in o[1:])
+
+
+def coq_jorder(o):
+    return 'JDefault' if o == DEFAULT else '(JGiven %s)' % coq_order(o)
 
 
 def coq_fk(fk):
@@ -542,9 +762,13 @@ def coq_op(op):
     if k == 'setfk':
         return '(SetFk %s %s)' % (z(op['id']), coq_fk(op['fk']))
     if k == 'add':
-        return '(Add %s %s %s)' % (coq_join(op['j']), z(op['x']), z(op['y']))
+        return '(%s %s %s %s)' % ('MAdd' if op['via'] == 2 else 'Add', coq_join(op['j']), z(op['x']), z(op['y']))
     if k == 'remove':
-        return '(Remove %s %s %s)' % (coq_join(op['j']), z(op['x']), z(op['y']))
+        return '(%s %s %s %s)' % ('MRemove' if op['via'] == 2 else 'Remove', coq_join(op['j']), z(op['x']), z(op['y']))
+    if k == 'mcreate':
+        return '(MCreate %s %s %s %s %s)' % (coq_join(op['j']), z(op['x']), oz(op['k'][0]), oz(op['k'][1]), oz(op['k'][2]))
+    if k == 'ocreate':
+        return '(OCreate %s %s %s %s)' % (z(op['x']), oz(op['k'][0]), oz(op['k'][1]), oz(op['k'][2]))
     return '(Destroy %s %s)' % (C(op['c']), z(op['id']))
 
 
@@ -552,6 +776,8 @@ def coq_acc(a):
     n, i, r = a
     if r[0] == 'ids':
         t = '(OIds [%s])' % ';'.join(z(x) for x in r[1])
+    elif r[0] == 'sel':
+        t = '(OSel [%s] %d)' % (';'.join(z(x) for x in r[1]), r[2])
     elif r[0] == 'none':
         t = 'ONoneV'
     elif r[0] == 'one':
@@ -582,15 +808,16 @@ def coq_step(s, prev):
 
 def coq_case(c, o):
     steps = o['steps']
-    return '{| c_ord := [%s]; c_ops := [%s]; c_obs := [%s] |}' % (
-        '; '.join(coq_order(x) for x in c['orders']),
+    return '{| c_def := [%s]; c_ord := [%s]; c_ops := [%s]; c_obs := [%s] |}' % (
+        '; '.join(coq_order(x) for x in c.get('deford') or [None] * 3),
+        '; '.join(coq_jorder(x) for x in c['orders']),
         '; '.join(coq_op(x) for x in c['ops']),
         ';\n '.join(coq_step(s, steps[k - 1] if k else None) for k, s in enumerate(steps)))
 
 
 # ---------------------------------------------------------------- oracle (the property itself, on the implementation)
 def key_tuple(keys, attrs):
-    """sort position of an object under the declared keys; None lowest; '-' reverses"""
+    """sort position of an object under the declared keys (as names); None lowest; '-' reverses"""
     out = []
     for k in keys:
         desc = k.startswith('-')
@@ -609,11 +836,31 @@ def le_keys(ka, kb):
 
 
 def order_names(o):
+    """the keys of an orderBy as names ('k0' / '-k0'), however they were written"""
     if o is None:
         return []
     if isinstance(o, str):
-        return [o]
-    return list(o[1:])
+        return [key_name(o)]
+    return [key_name(k) for k in o[1:]]
+
+
+def eff_order(case, n):
+    """the ordering accessor n works with: its join's orderBy, or -- join declared without one, SingleJoin,
+    ManyToMany/OneToMany selects -- the defaultOrder of the class it returns"""
+    deford = case.get('deford') or [None] * 3
+    if n == 2 or n in SEL_ACC:
+        return deford[ACC_TARGET[n]]
+    o = case['orders'][ACC_ORD[n]]
+    return deford[ACC_TARGET[n]] if o == DEFAULT else o
+
+
+def known_trigger(case, f):
+    """id of the open finding whose trigger class the failure f falls into, else None"""
+    if f.get('kind') == 'error' and f.get('accessor') in ('frq', 'ofq') and f.get('error') == 'OperationalError' \
+            and order_has_expr(f.get('orderBy')):
+        return 'sqlrelatedjoin_self_expr_orderby'
+    # onetomany_create_column_name_keyword is fixed (80b2179) and suppresses nothing
+    return None
 
 
 def failures(case, obs):
@@ -624,14 +871,37 @@ def failures(case, obs):
     want_links = [[], [], []]
     want_fk = {}
     prev_b = set()
+    prev_live = [set(), set(), set()]
     for si, s in enumerate(obs['steps']):
-        if s['status'] == 9:
-            yield {'step': si, 'what': 'operation raised %s' % s.get('exn'), 'kind': 'op-error'}
+        op = case['ops'][si]
+        if s['status'] in (4, 9):
+            yield {'step': si, 'what': 'operation %s raised %s' % (json.dumps(op), s.get('exn')), 'kind': 'op-error',
+                   'op': op['op'], 'exn': s.get('exn')}
         tabs, links = s['tabs'], s['links']
         live = [set(r[0] for r in t) for t in tabs]
         fk = {r[0]: r[1][3] for r in tabs[1]}
-        op = case['ops'][si]
+        for n, i, a1, a2 in s.get('reread', []):
+            yield {'step': si, 'kind': 'reread', 'accessor': ACC[n], 'owner': i,
+                   'what': 'accessor %s of %d read twice in a row gave %r, then %r' % (ACC[n], i, a1, a2)}
+        for owner, attr in s.get('mutated', []):
+            yield {'step': si, 'kind': 'orderby-mutated', 'accessor': attr,
+                   'what': 'reading the accessors changed the orderBy list given to join %s' % attr}
         if s['status'] == 0:
+            if op['op'] == 'mcreate':
+                j = JOINS[op['j']]
+                new = sorted(live[j[3]] - prev_live[j[3]])
+                if len(new) != 1:
+                    yield {'step': si, 'kind': 'relation', 'what': 'create() through the ManyToMany made %r' % new}
+                for i in new:
+                    want_links[j[0]].append([op['x'], i] if j[1] == 0 else [i, op['x']])
+                    if j[3] == 1:
+                        want_fk[i] = None
+            if op['op'] == 'ocreate':
+                new = sorted(live[1] - prev_live[1])
+                if len(new) != 1:
+                    yield {'step': si, 'kind': 'relation', 'what': 'create() through the OneToMany made %r' % new}
+                for i in new:
+                    want_fk[i] = op['x']
             if op['op'] == 'create' and op['c'] == 1:
                 for i in live[1] - prev_b:
                     want_fk[i] = None if op['fk'][0] == 'none' else op['fk'][1]
@@ -651,6 +921,7 @@ def failures(case, obs):
                 if op['c'] == 1:
                     want_fk.pop(op['id'], None)
         prev_b = live[1]
+        prev_live = live
         for li in range(3):
             if sorted(links[li]) != sorted(want_links[li]):
                 yield {'step': si, 'kind': 'relation', 'what': 'after %s link table %d holds %r; the adds and removes so far '
@@ -671,13 +942,14 @@ def failures(case, obs):
                    'what': 'accessor %s of %d handed out an object that is not bound to the owner\'s connection' % (ACC[n], i)}
         for ci in range(3):
             for i in live[ci]:
-                for n in range(13):
+                for n in range(NACC):
                     if ACC_OWNER[n] == ci and (n, i) not in res:
                         yield {'step': si, 'kind': 'harness', 'what': 'accessor %s of %s %d not read' % (ACC[n], CLS[ci], i)}
         for (n, i), r in sorted(res.items()):
-            names = order_names(case['orders'][ACC_ORD[n]]) if n != 2 else []
-            valid_order = not (n != 2 and isinstance(case['orders'][ACC_ORD[n]], list) and not names)
-            where = {'step': si, 'accessor': ACC[n], 'owner': i, 'orderBy': case['orders'][ACC_ORD[n]] if n != 2 else None}
+            eo = eff_order(case, n)
+            names = order_names(eo)
+            valid_order = not (isinstance(eo, list) and not names)
+            where = {'step': si, 'accessor': ACC[n], 'owner': i, 'orderBy': eo}
             if n == 2:
                 refs = sorted(b for b, f in fk.items() if f == i)
                 if r[0] == 'err':
@@ -687,6 +959,12 @@ def failures(case, obs):
                     yield dict(where, kind='single', what='SingleJoin gave %r, referencing rows %r' % (r, refs))
                 if r[0] == 'one' and r[1] not in refs:
                     yield dict(where, kind='single', what='SingleJoin gave %r, referencing rows %r' % (r, refs))
+                elif r[0] == 'one':
+                    # class B's defaultOrder orders the select: the row handed out is a first one
+                    mine = key_tuple(names, s['attrs']['1:%d' % r[1]])
+                    if not all(le_keys(mine, key_tuple(names, s['attrs']['1:%d' % b])) for b in refs):
+                        yield dict(where, kind='single', what='SingleJoin gave %r, not a first row under %r among %r' % (
+                            r, names, refs))
                 continue
             if r[0] == 'err':
                 if not valid_order:
@@ -694,7 +972,9 @@ def failures(case, obs):
                 yield dict(where, kind='error', error=r[2], what='accessor raised %s' % r[2])
                 continue
             got = r[1]
-            if n in (0, 1):
+            if n in SEL_ACC and r[2] != len(got):
+                yield dict(where, kind='count', what='.count() is %r, the iteration gives %d objects' % (r[2], len(got)))
+            if n in (0, 1, 14):
                 want = sorted(b for b, f in fk.items() if f == i)
             else:
                 li, mine, theirs = ACC_LINK[n]
@@ -710,12 +990,12 @@ def failures(case, obs):
                     yield dict(where, kind='order', what='result %r is not ordered by %r (keys %r)' % (
                         got, names, [s['attrs']['%d:%d' % (t, x)] for x in got]))
         # symmetry of the many-to-many joins declared on both sides
-        for na, nb in ((3, 7), (9, 11)):
+        for na, nb in ((3, 7), (9, 11), (13, 15)):
             for (n, i), r in res.items():
-                if n != na or r[0] != 'ids':
+                if n != na or r[0] not in ('ids', 'sel'):
                     continue
                 for (m, j), q in res.items():
-                    if m != nb or q[0] != 'ids':
+                    if m != nb or q[0] not in ('ids', 'sel'):
                         continue
                     if r[1].count(j) != q[1].count(i):
                         yield {'step': si, 'kind': 'symmetry',
@@ -734,7 +1014,7 @@ def failures(case, obs):
                     continue
                 if any('%d:%d' % (ACC_TARGET[nl], x) not in s['attrs'] for x in r[1]):
                     continue
-                names = order_names(case['orders'][ACC_ORD[nl]])
+                names = order_names(eff_order(case, nl))
                 t = ACC_TARGET[nl]
                 kts = [tuple(key_tuple(names, s['attrs']['%d:%d' % (t, x)])) for x in set(r[1])]
                 if names and len(set(kts)) == len(kts) and r[1] != q[1]:
@@ -743,15 +1023,19 @@ def failures(case, obs):
 
 
 def oracle(case, obs):
-    """the first way in which the observation contradicts the property"""
+    """the first way in which the observation contradicts the property; a failure that falls into the trigger
+    class of an open finding is reported only when nothing else in the case fails"""
+    known = None
     for f in failures(case, obs):
-        return f
-    return None
+        if known_trigger(case, f) is None:
+            return f
+        known = known or f
+    return known
 
 
 def classify(case, obs, f):
-    # no open finding: sqlrelatedjoin_orderby_id_ambiguous is fixed (16e77ff) and suppresses nothing
-    return None
+    # sqlrelatedjoin_orderby_id_ambiguous is fixed (16e77ff) and suppresses nothing
+    return known_trigger(case, f)
 
 
 def nontrivial(case, obs):
@@ -763,7 +1047,7 @@ def nontrivial(case, obs):
             if r[0] == 'ids' and len(r[1]) >= 2:
                 big = True
                 if n in LIST_ACC:
-                    names = order_names(case['orders'][ACC_ORD[n]])
+                    names = order_names(eff_order(case, n))
                     t = ACC_TARGET[n]
                     vals = [tuple(s['attrs']['%d:%d' % (t, x)][COLS.index(k.lstrip('-'))] for k in names) for x in r[1]]
                     if names and (len(set(vals)) < len(vals) or any(None in v for v in vals)):
@@ -772,7 +1056,7 @@ def nontrivial(case, obs):
 
 
 def key(case):
-    return [case['orders'], case['ops'], case.get('conn', 'default')]
+    return [case['orders'], case.get('deford'), case['ops'], case.get('conn', 'default')]
 
 
 def distribution(cases, obs):
@@ -782,7 +1066,10 @@ def distribution(cases, obs):
     for c, o in zip(cases, obs):
         m = c.get('conn', 'default')
         d['connection_mode'][m] = d['connection_mode'].get(m, 0) + 1
-        for x in c['orders']:
+        for x in c['orders'] + [y for y in (c.get('deford') or []) if y is not None]:
+            if x == DEFAULT:
+                d['orders']['inherited'] = d['orders'].get('inherited', 0) + 1
+                continue
             if x is None:
                 d['orders']['none'] += 1
             elif isinstance(x, str):
@@ -791,12 +1078,18 @@ def distribution(cases, obs):
                 d['orders']['list%d' % (len(x) - 1) if len(x) > 1 else 'empty'] += 1
             if any(k.lstrip('-') == 'id' for k in order_names(x)):
                 d['orders']['with_id'] += 1
+            if order_has_expr(x):
+                d['orders']['with_expr_key'] = d['orders'].get('with_expr_key', 0) + 1
+        if any(y is not None for y in (c.get('deford') or [])):
+            d['orders']['cases_with_defaultOrder'] = d['orders'].get('cases_with_defaultOrder', 0) + 1
         b = str(len(c['ops']) // 10 * 10)
         d['lengths'][b] = d['lengths'].get(b, 0) + 1
         if not isinstance(o, dict) or 'steps' not in o:
             continue
         for op, s in zip(c['ops'], o['steps']):
             d['ops'][op['op']] = d['ops'].get(op['op'], 0) + 1
+            if op.get('via') == 2:
+                d['ops']['%s_via_manytomany' % op['op']] = d['ops'].get('%s_via_manytomany' % op['op'], 0) + 1
             if s['status']:
                 k = '%s:%s' % (op['op'], s.get('exn'))
                 d['refused'][k] = d['refused'].get(k, 0) + 1
